@@ -21,7 +21,14 @@ PROP = dict(
                    "Sixth round: Close's goroutines report failing closers through one shared logger object; the built-in logger builds each line in "
                    "locals of the call, so C20_close_drf covers the report step; with ONE location in that logger written by every reporting "
                    "goroutine outside a lock, two closers failing together are inside their accesses at the same time on some schedule, for every "
-                   "n >= 2 (C20_close_shared_scratch_race_counterexample).",
+                   "n >= 2 (C20_close_shared_scratch_race_counterexample). "
+                   "Seventh round: syslog.Pref is ONE LoadOrStoreFn of the process-wide prefix cache and writes nothing but its own locals "
+                   "(C20_pref_skeleton, on the regenerated skeleton of syslog.Pref), so for every number of callers of one prefix, whatever root "
+                   "logger each of them read, and every schedule, all callers are handed the ONE logger the cache keeps (C20_pref_one_logger); a "
+                   "logger that is cached is handed to every later caller whatever root has been installed since (C20_pref_cached_logger_kept: "
+                   "the cache outlives the App - what the code does, not something C20 demands); refreshing the shared entry in place in two "
+                   "unlocked writes hands two callers of one phase two different loggers (C20_pref_refresh_in_place_counterexample). "
+                   "C20_range_regular is evaluated on the real map by the oracle range-phantom-pair.",
         level_note="Partial by nature: the model is sequentially consistent and assumes sync.Map/Mutex/WaitGroup primitives atomic; the Go "
                    "memory model, sync.Map internals and what scanners/closers touch internally are covered only by the race-detector runs "
                    "(real starts with simultaneously failing scanners, real shutdowns) and by linearizability checks of recorded histories.",
@@ -57,10 +64,27 @@ PROP = dict(
              "~200-byte message - at the same moment; first a shutdown with ONE failing closer (reference: how often its message appears), then 4 (12) fresh "
              "Apps; observed: a race report mentioning go-kid/ioc (`race`), the closers' counters, and the captured output - oracle close-log-garbled: "
              "every failing closer's message stands there whole, as often as that of a closer failing alone (when the missing ones arrive within 300 ms "
-             "after the return: close-report-after-return)",
+             "after the return: close-report-after-return); "
+             "seventh round (drawn after everything else): 6 (thorough 30) `plog <apps> <n> <nc> <first> <flags> <seed>` in ONE fresh race-detector child "
+             "process: a HISTORY of 2-5 (thorough sometimes 6-12) Apps started and closed one after the other, App i with its own recording logger through "
+             "app.SetLogger, 8-40 (sometimes 1-7) plain components, 0-12 closers and a user DefinitionRegistryPostProcessor; from App <first> (1 in two "
+             "thirds of the cases) on the scanner writes one line per scanned component (flags bit 0) and every closer one line inside Close() (bit 1; "
+             "flags 3 / 1 / 2 = 50 / 25 / 25 %) through ONE prefix syslog.Pref(p) that is new to the process, the calls of a phase lined up at a "
+             "barrier - so the first use of the prefix after the root logger was replaced comes from all goroutines of the parallel scan (or, "
+             "flags 2, of the parallel Close) at once; observed per App and phase: which recording loggers received the lines (compared with the "
+             "model: the logger of the App that first used the prefix - the cache outlives the App), the logger objects handed out and the arrival of "
+             "every line - oracles pref-two-loggers (all callers of one phase are handed one logger), pref-line-lost (every line arrives exactly "
+             "once), race; 3 (thorough 12) `rdel <g> <rounds>`: a real sync2.Map[string,*entry] with two permanent entries, one goroutine storing "
+             "and deleting a third key 1500 (20000) times, 2-8 goroutines enumerating with Range all the while - oracles range-phantom-pair (every "
+             "pair Range reports was stored under that key: value non-nil and stored there), range-key-twice, range-key-missing (a key present all "
+             "the time is reported exactly once); range-phantom-pair is also evaluated on the forced `range` schedules (every value stored is 1) "
+             "and on the Range results of the recorded histories (a value neither initial nor stored by a call of the history), where it takes "
+             "precedence over the known finding range-not-atomic",
         trusted_base=COMMON_TB + ["the reading of Facts.scanSkel/closeSkel/sync2Methods/concurrentSetMethods into guards and primitive "
                                   "sequences (Ioc.Conc.scanShape, closeShape, factProgs) and the go/ast skeleton extractor",
                                   "the Go race detector (go build -race) as the observer of unsynchronised accesses in the real runs",
+                                  "the go/ast reading of syslog.Pref into Facts.syslogPrefSkel (harness/cmd/facts/conc_facts.go: calls on prefCache, "
+                                  "assignments to anything but locals of the function)",
                                   "sync.Map, sync.Mutex, sync.WaitGroup primitives assumed atomic and correct"],
         assumptions=["sequentially consistent interleavings; data race = two conflicting accesses in progress at once (the standard "
                      "equivalence with happens-before races is assumed, not proved)",
